@@ -118,6 +118,9 @@ struct FaultFamily {
     write_ops: Vec<usize>,
     eof_points: Vec<usize>,
     per_op: u64,
+    /// fault-free callbacks and output, for judging a transient `Interrupted`
+    base_log: Vec<Cb>,
+    base_out: Vec<u8>,
 }
 
 #[derive(Debug)]
@@ -125,6 +128,8 @@ enum Spec {
     Eof(usize),
     Err { at: usize, kind: io::ErrorKind, persistent: bool },
     ZeroWrite(usize),
+    /// `ErrorKind::Interrupted` once: the one error kind a caller may legitimately retry
+    Interrupted(usize),
 }
 
 impl FaultFamily {
@@ -153,6 +158,8 @@ impl FaultFamily {
         };
         let per_op = if spec.sparse { 2 } else { 8 };
         FaultFamily {
+            base_log: o.log.iter().map(|x| x.1.clone()).collect(),
+            base_out: if spec.sparse { Vec::new() } else { o.sim.out.clone() },
             eof_points,
             per_op,
             spec,
@@ -181,7 +188,11 @@ impl FaultFamily {
                 persistent: r % 2 == 1,
             };
         }
-        Spec::ZeroWrite(self.write_ops[(r - n * self.per_op) as usize])
+        let r2 = r - n * self.per_op;
+        if (r2 as usize) < self.write_ops.len() {
+            return Spec::ZeroWrite(self.write_ops[r2 as usize]);
+        }
+        Spec::Interrupted(r2 as usize - self.write_ops.len())
     }
     /// what must run_on return when the stream ends after k bytes: Ok(true)=Ok, Ok(false)=Err
     /// (any), Err(m)=the marker m; plus the number of callbacks that must have run
@@ -224,7 +235,7 @@ impl Family for FaultFamily {
         format!("faults:{}", self.spec.label)
     }
     fn len(&self) -> u64 {
-        self.eof_points.len() as u64 + self.base_ops.len() as u64 * self.per_op + self.write_ops.len() as u64
+        self.eof_points.len() as u64 + self.base_ops.len() as u64 * self.per_op + self.write_ops.len() as u64 + if self.spec.sparse { 0 } else { self.base_ops.len() as u64 }
     }
     fn run(&self, idx: u64, st: &mut Stats) -> Result<(), Violation> {
         let sp = self.spec_of(idx);
@@ -289,6 +300,26 @@ impl Family for FaultFamily {
                     }),
                 );
                 self.judge_fault(&o, at, &format!("{:?} {} at op {} ({:?})", kind, if persistent { "from" } else { "once" }, at, self.base_ops[at]))
+            }
+            Spec::Interrupted(at) => {
+                st.nontrivial += 1;
+                st.bump("interrupted_once");
+                let o = run_spec(&self.spec, &self.stream, Some(Fault { at_op: at, kind: FaultKind::Error(io::ErrorKind::Interrupted), persistent: false }));
+                let what = format!("Interrupted once at op {} ({:?})", at, self.base_ops[at]);
+                if let ConnResult::Panic(l, m) = &o.res {
+                    return Err(Violation::new(panic_key(l, m), format!("{}: run_on panicked at {}: {}", what, l, m)));
+                }
+                // either the operation is retried and nothing at all changes for client and shim ...
+                let log: Vec<Cb> = o.log.iter().map(|x| x.1.clone()).collect();
+                if o.res == self.base_res && log == self.base_log && o.sim.out == self.base_out {
+                    st.bump("interrupted_retried_transparently");
+                    return Ok(());
+                }
+                // ... or it is reported like any other transport error
+                if o.res.is_ok() {
+                    return Err(Violation::new("interrupted-changes-the-conversation", format!("{}: run_on returned Ok, but callbacks or output differ from the undisturbed run ({} vs {} callbacks, {} vs {} bytes)", what, log.len(), self.base_log.len(), o.sim.out.len(), self.base_out.len())));
+                }
+                self.judge_fault(&o, at, &what)
             }
             Spec::ZeroWrite(at) => {
                 st.nontrivial += 1;
@@ -551,15 +582,15 @@ pub fn build(quick: bool) -> Check {
     Check {
         id: "C19",
         level: "fault_enumeration",
-        rule: format!("{} conversations (writer programs with explicit finish and with implicit drops, text and binary, chained results, long data, close, quit, library replies, auth rejection, a shim error in each callback; each writer program followed by a library-answered command, by another shim command + QUIT, and by QUIT alone; pipelined and with a lock-step client; under 1-byte reads and short writes; requests of 2^24-1 bytes and more with end-of-stream within 6 bytes of every packet header and message end; the plain conversations again under one read boundary next to every packet header (thorough: at every position), each with its own fault-free operation log). For each, from the operation log of its fault-free run: end of stream after every byte count 0..M, an error of each of 4 kinds once and persistently at every operation index, a zero-length write at every write. Oracle: Ok iff fault-free and the client quit or closed at a message boundary after the handshake; every fault => Err, never Ok, never a panic; no callback starts after the failed operation; a shim error is returned as the identical value. Non-trivial = a fault strictly inside the conversation (not a clean close).", n),
+        rule: format!("{} conversations (writer programs with explicit finish and with implicit drops, text and binary, chained results, long data, close, quit, library replies, auth rejection, a shim error in each callback; each writer program followed by a library-answered command, by another shim command + QUIT, and by QUIT alone; pipelined and with a lock-step client; under 1-byte reads and short writes; requests of 2^24-1 bytes and more with end-of-stream within 6 bytes of every packet header and message end; the plain conversations again under one read boundary next to every packet header (thorough: at every position), each with its own fault-free operation log). For each, from the operation log of its fault-free run: end of stream after every byte count 0..M, an error of each of 4 kinds once and persistently at every operation index, a zero-length write at every write; ErrorKind::Interrupted once at every operation (must either be retried without any visible difference or be reported like any other error). Oracle: Ok iff fault-free and the client quit or closed at a message boundary after the handshake; every fault => Err, never Ok, never a panic; no callback starts after the failed operation; a shim error is returned as the identical value. Non-trivial = a fault strictly inside the conversation (not a clean close).", n),
         assumptions: vec![
-            "ErrorKind::Interrupted is not injected: std's write_all retries it by contract, so it is not a transport failure report".into(),
+            "ErrorKind::Interrupted is injected once per operation only (a persistent one makes std's write_all spin by contract); both a transparent retry and an error return are accepted".into(),
             "fault points are derived from the fault-free run of the tree under test, not from constants".into(),
         ],
         bounds: json!({"conversations": n, "error_kinds": 4}),
         exhaustive: true,
         caps_hit: vec![],
         families,
-        required: vec!["eof_inside_a_message", "eof_at_a_boundary", "read_faults", "write_faults", "flush_faults", "zero_writes"],
+        required: vec!["interrupted_once", "eof_inside_a_message", "eof_at_a_boundary", "read_faults", "write_faults", "flush_faults", "zero_writes"],
     }
 }
